@@ -73,4 +73,5 @@ Definition enc_Base62StdEncoding_skip : list byte := [x09; x0a; x0d; x20; x3e]. 
 Definition i_basex_NewEncoder_0 : N := (128)%N.
 Definition i_basex_newDecoder_0 : N := (0)%N.
 Definition i_basex_newDecoder_1 : N := (8192)%N.
+Definition i_basex_newDecoder_2 : N := (8192)%N.
 
